@@ -464,7 +464,9 @@ class C06(Prop):
     id = "C06"
     title = "Reference counts are exact: no leaks, nothing freed while referenced"
     lean_modules = ["NV.C06.Props", "NV.C06.Witness"]
-    theorems = ["NV.C06.widths_agree", "NV.C06.ref_eq_holders", "NV.C06.no_free_while_held",
+    theorems = ["NV.C06.prog_widths_agree", "NV.C06.incRef_prog_matches", "NV.C06.decRef_prog_matches", "NV.C06.no_dangling_reference",
+                "NV.C06.program_alive_while_referenced", "NV.C06.prog_ref_eq_holders", "NV.C06.unreferenced_is_deallocated",
+                "NV.C06.widths_agree", "NV.C06.ref_eq_holders", "NV.C06.no_free_while_held",
                 "NV.C06.primitives_preserve_invariant", "NV.C06.string_never_freed_while_held", "NV.C06.string_cells_never_freed_while_held",
                 "NV.C06.string_saturates", "NV.C06.no_inplace_modification_while_shared", "NV.C06.extendInPlace_sole",
                 "NV.C06.joinInPlace_sole", "NV.C06.unlink_inplace_sole", "NV.C06.add_never_inplace", "NV.C06.sole_of_ref_one", "NV.C06.incRef_str_matches",
